@@ -245,6 +245,10 @@ def _c07_install() -> None:
             d = long_sleep
             wstate["long_done"] += 1
         emit({"ev": "impl_start", "w": worker_idx(), "mods": list(stale), "idx": wstate["impl_idx"], "sleep": round(d, 3)})
+        kill_at = os.environ.get("C07_KILL_AT", "")      # "<module>": the worker dies when it starts that module's implementation
+        if kill_at and kill_at in stale:
+            emit({"ev": "killed", "w": worker_idx(), "mod": kill_at})
+            os._exit(3)
         wstate["impl_idx"] += 1
         if d:
             time.sleep(d)
